@@ -8,14 +8,11 @@ Lemma forallb_In_bool {A} (f : A -> bool) l : forallb f l = true -> forall x, In
 Proof. intros H x Hx. rewrite forallb_forall in H. exact (H x Hx). Qed.
 
 (* ================================================================ purl types (finite, regenerated tables) *)
-Lemma emitted_types_valid_on_D_lemma : forall t, In t emitted_types -> in_D_type t = true -> valid_type t = true.
+Lemma emitted_types_valid_lemma : forall t, In t emitted_types -> valid_type t = true.
 Proof.
-  assert (H : forallb (fun t => negb (in_D_type t) || valid_type t) emitted_types = true) by (vm_compute; reflexivity).
-  intros t Ht HD. pose proof (forallb_In_bool _ _ H t Ht) as E. cbv beta in E. rewrite HD in E. exact E.
+  assert (H : forallb valid_type emitted_types = true) by (vm_compute; reflexivity).
+  intros t Ht. exact (forallb_In_bool _ _ H t Ht).
 Qed.
-
-Lemma emitted_types_valid_refuted_lemma : exists t, In t emitted_types /\ valid_type t = false.
-Proof. exists s_snap. split; [vm_compute; tauto | vm_compute; reflexivity]. Qed.
 
 Lemma valid_type_lower t : valid_type (to_lower t) = valid_type t.
 Proof.
